@@ -1016,7 +1016,7 @@ func init() {
 				}
 			}
 			// shared descriptions with groups of unequal size (rows of different lengths)
-			rn := []int{3, 6} // (both tiers: larger ragged sets ran out of memory under a 16 GB limit)
+			rn := []int{3} // (both tiers: with larger ragged sets the whole check ran out of memory)
 			for _, n := range rn {
 				for _, structure := range []string{"ragged", "ragged-rev"} {
 					for _, dir := range []string{"fwd", "bwd"} {
@@ -1034,7 +1034,7 @@ func init() {
 			"the display engine runs unstubbed (the completion grid is built and printed for real; output is discarded); the terminal answers cursor-position queries with ESC[1;1R",
 		},
 		Stubs:  []string{"tty ioctls (symbolic window size)", "stdin = zzverif.Script", "stdout discarded", "uniseg.StringWidth native on concrete text"},
-		Bounds: map[string]string{"quick": "n in {1,2,3,5} candidates, two length patterns, width <= 100, height <= 40; ragged alias groups n in {3,6}", "thorough": "n up to 12; ragged as in the quick tier"},
+		Bounds: map[string]string{"quick": "n in {1,2,3,5} candidates, two length patterns, width <= 100, height <= 40; ragged alias groups n = 3", "thorough": "n up to 12; ragged as in the quick tier"},
 		Rule:   "one state per completed symbolic path (a path = one class of terminal sizes producing the same grid shape)",
 		IgnoreKinds: []string{"panic", "hang", "deadlock", "spin"},
 	}
